@@ -909,6 +909,12 @@ def ownership(ctx, f, acq, var, kind, cg, esc, fal, _depth=0):
         return frozenset(x for x in facts if x != 'own' and not (isinstance(x, tuple) and x[0] in ('pend', 'xfer', 'pendcond', 'xfercond')))
 
     def step(n, facts):
+        sp = ct.split_on_assigned_comparison(n, facts)
+        if sp is not None and any(('eq', var, 0) in fs or ('ne', var, 0) in fs for fs in sp):
+            # `flag = (var != NULL)`: from here on the flag says whether anything is owned
+            if 'own' in facts:
+                established[0] = True
+            return paths.Fork([release(fs) if ('eq', var, 0) in fs else fs for fs in sp])
         facts = ct.on_step(n, facts)
         k = n['k']
         owned = 'own' in facts
